@@ -30,19 +30,27 @@ ArrowCodes(ret, body) ==
   IF ret = "ann" THEN {} ELSE
   CASE body = "expr-lit" -> {} [] body = "expr-call" -> {RET} [] body = "block-none" -> {RET} [] body = "block-void" -> {} [] body = "block-single" -> {RET}
 
-VarInits == {"ann-call", "lit-num", "lit-str", "lit-bool", "lit-bigint", "call", "new", "as-simple", "arr", "obj", "tpl", "destruct", "arrow-ok", "neg-num"}
+VarInits == {"ann-call", "lit-num", "lit-str", "lit-bool", "lit-bigint", "call", "new", "as-simple", "arr", "obj", "tpl", "destruct", "arrow-ok", "neg-num",
+             "arr-call-first", "arr-call-last", "arr-call-mid", "arr-nested-call", "obj-call", "obj-call-first", "obj-method", "cond-call", "tpl-call",
+             "unary-call", "bin-call-left", "paren-call", "spread-call", "member-lit", "tagged-tpl", "seq", "assign", "optchain", "class-expr", "await-call"}
 VarCodes(init) ==
   CASE init \in {"ann-call", "lit-num", "lit-str", "lit-bool", "lit-bigint", "as-simple", "arr", "obj", "tpl", "arrow-ok", "neg-num"} -> {}
     [] init \in {"call", "new"} -> {TYP}
+    \* an initialiser is leavable only if every part of it is: a call / new / assignment / sequence / tagged template /
+    \* class expression / optional chain / object method anywhere inside makes the whole initialiser non-leavable
+    [] init \in {"arr-call-first", "arr-call-last", "arr-call-mid", "arr-nested-call", "obj-call", "obj-call-first", "obj-method", "cond-call",
+                 "unary-call", "bin-call-left", "paren-call", "spread-call", "tagged-tpl", "seq", "assign", "optchain", "class-expr", "await-call"} -> {TYP}
+    \* an untagged template is of type string whatever it interpolates (the initialiser is then replaced by a placeholder)
+    [] init \in {"member-lit", "tpl-call"} -> {}
     [] init = "destruct" -> {"unsupported-destructuring"}
 
-Members == {"prop-ann", "prop-lit", "prop-call", "priv-prop-call", "hash-prop-call", "method-ann", "method-infer", "method-void", "getter-none", "getter-ann",
+Members == {"prop-arr-call-first", "static-prop-arr-call-first", "method-default-arr-call-first", "prop-ann", "prop-lit", "prop-call", "priv-prop-call", "hash-prop-call", "method-ann", "method-infer", "method-void", "getter-none", "getter-ann",
             "setter-typed", "setter-untyped", "priv-method-infer", "ctor-param-prop", "ctor-untyped", "priv-ctor-untyped", "static-block", "static-prop-call",
             "accessor-ann", "readonly-lit", "optional-method-ann"}
 MemberCodes(m) ==
   CASE m \in {"prop-ann", "prop-lit", "priv-prop-call", "hash-prop-call", "method-ann", "method-void", "getter-ann", "setter-typed", "priv-method-infer",
               "ctor-param-prop", "priv-ctor-untyped", "static-block", "accessor-ann", "readonly-lit", "optional-method-ann"} -> {}
-    [] m \in {"prop-call", "static-prop-call", "setter-untyped", "ctor-untyped"} -> {TYP}
+    [] m \in {"prop-call", "static-prop-call", "setter-untyped", "ctor-untyped", "prop-arr-call-first", "static-prop-arr-call-first", "method-default-arr-call-first"} -> {TYP}
     [] m \in {"method-infer", "getter-none"} -> {RET}
 
 Miscs == {"export-assign", "export-as-namespace", "import-require", "declare-global", "ambient-module", "default-lit", "default-call", "default-ident",
